@@ -7,6 +7,8 @@ git -C /repo diff --quiet || { echo "/repo working tree not clean"; exit 2; }
 git -C /repo apply "$(readlink -f $D/patch.diff)" || { echo "patch does not apply"; exit 2; }
 OUT=$D/check_results.txt
 : > $OUT
+# the checks below rewrite evidence/<id>.json with results for the CHANGED tree: keep the clean ones
+EVSAVE=$(mktemp -d); cp -a evidence/. "$EVSAVE"/
 for P in "$@"; do
   echo "== ./check.sh $P quick (with the seeded change applied)" >> $OUT
   ./check.sh $P quick > /tmp/eval_seed_$$.log 2>&1
@@ -14,6 +16,7 @@ for P in "$@"; do
   grep -E "^VIOLATION|^  obligation|^  UNVERIFIED|^property|^KNOWN" /tmp/eval_seed_$$.log | cut -c1-400 >> $OUT
 done
 rm -f /tmp/eval_seed_$$.log
+rm -rf evidence; mkdir -p evidence; cp -a "$EVSAVE"/. evidence/; rm -rf "$EVSAVE"
 git -C /repo checkout -- .
 git -C /repo diff --quiet && echo "reverted" >> $OUT
 cat $OUT
